@@ -109,7 +109,11 @@ func (e *FieldExpression) Evaluate(ctx *Context, input system.Collection) (syste
 		}
 		// unwrap if a ContainedResource
 		if contained, ok := message.(*bcrpb.ContainedResource); ok {
-			message = containedresource.Unwrap(contained)
+			resource := containedresource.Unwrap(contained)
+			if resource == nil {
+				continue // a wrapper that holds no resource has no fields to offer
+			}
+			message = resource
 		}
 
 		// Get desired field
@@ -184,7 +188,11 @@ func (e *FieldExpression) Evaluate(ctx *Context, input system.Collection) (syste
 				return nil, err
 			}
 			if contained, ok := obj.(*bcrpb.ContainedResource); ok {
-				obj = containedresource.Unwrap(contained)
+				resource := containedresource.Unwrap(contained)
+				if resource == nil {
+					return nil, nil // a wrapper that holds no resource yields no item
+				}
+				obj = resource
 			}
 			return e.unwrapOneof(obj), nil
 		}
@@ -201,7 +209,9 @@ func (e *FieldExpression) Evaluate(ctx *Context, input system.Collection) (syste
 			if err != nil {
 				return nil, err
 			}
-			output = append(output, unwrapped)
+			if unwrapped != nil {
+				output = append(output, unwrapped)
+			}
 			continue
 		}
 		content := reflect.Get(field).List()
@@ -211,7 +221,9 @@ func (e *FieldExpression) Evaluate(ctx *Context, input system.Collection) (syste
 			if err != nil {
 				return nil, err
 			}
-			output = append(output, unwrapped)
+			if unwrapped != nil {
+				output = append(output, unwrapped)
+			}
 		}
 	}
 	return output, nil
